@@ -20,6 +20,7 @@ EXPLANATION = (
     "selection (break / next() / accumulator tested inside the loop) and only tables with a known schema are asked; R13.5 the provider's "
     "public look-up is a function of the session store and the provider's own source only (no memo across calls or instances). "
     "R13.6 session entries are dropped on every exit of a run (= R12.1), so a table unknown to the provider is not answered from a previous run. Does not decide: that expansion yields exactly the table's columns, nor the attribution of unqualified columns as values."
+    " R13.5 also requires that the provider's own source is asked only on paths that tested what the session store holds (precedence, not only presence)."
 )
 RULE_TEXT = "one obligation per provider look-up, per table-level sink and per loop of the late repair; anchors are trivial"
 
